@@ -207,6 +207,8 @@ class IncomingBallsHandler(BallDeviceStateHandler):
         """Remove incoming ball."""
         self.debug_log("Removing incoming ball from %s", incoming_ball.source)
         self._incoming_balls.remove(incoming_ball)
+        # the ball no longer blocks a slot (e.g. because it got lost). other sources might be waiting for that.
+        self.ball_device.ball_count_handler.wake_waiting_sources()
         if self.ball_device.config['mechanical_eject'] and incoming_ball.wait_for_can_skip().done():
             self.ball_device.outgoing_balls_handler.remove_incoming_ball_which_may_skip(incoming_ball)
 
